@@ -42,6 +42,19 @@ def gen_cases(tier):
             cfgs = [([], True, None), ([], False, None), ([], True, [1]), ([], False, [3, 1]), ([], True, [1, 2, 3])]
             cases.append({"id": i + 1, "raw": {"kind": "random", "top": top, "div": div}, "cfgs": cfgs})
             continue
+        if i % 12 == 7:
+            # the divisor reads a variable v that is NOT a top-level input (the quotient has to drive it) and assumes something about v alone;
+            # its other assumptions follow from the dividend's; its guarantee relaxes non-trivially onto the quotient's inputs
+            hi = rng.randint(1, 3)
+            k = rng.choice([1, 2, 3])
+            top = {"inv": ["i"], "outv": ["p"], "a": [({"i": -1}, 0), ({"i": 1}, hi)], "g": [({"p": 1, "i": -k}, rng.randint(0, 2))]}
+            div = {"inv": ["i", "v"], "outv": ["o"], "a": [({"i": -1}, 0), ({"i": 1}, hi + rng.randint(0, 2)), ({"v": -1}, 0), ({"v": 1}, rng.randint(2, 4))],
+                   "g": [({"o": 1, "i": -k}, 0)] + ([({"o": -1, "v": -1}, 5)] if rng.random() < 0.4 else [])}
+            if rng.random() < 0.5:
+                div["a"].reverse()
+            cfgs = [([], True, None), ([], False, None), ([], True, gen.rorder(rng)), (["v"], True, None)]
+            cases.append({"id": i + 1, "raw": {"kind": "random", "top": top, "div": div}, "cfgs": cfgs})
+            continue
         if i % 12 == 3:
             # the dividend's assumptions CONTRADICT the divisor's on a shared input, and the dividend's guarantees mention no shared variable
             lo = rng.randint(3, 6)
@@ -56,6 +69,16 @@ def gen_cases(tier):
             a = {v: rng.choice([1, 2, 3]) * rng.choice([1, 1, 1, -1]) for v in ("y", "z")}
             if rng.random() < 0.5:
                 a = {"y": 1, "z": 1}
+            if rng.random() < 0.4:
+                # a chain  y <= z <= K  shared by both, the divisor adds  y <= m <= K: three rows are active at the optimum of y + z, and the
+                # first pair in list order has multipliers (2, -1)
+                K, a_ = rng.choice([1, 2, 3]), rng.choice([1, 2])
+                rows = [({"y": 1, "z": -1}, 0), ({"z": 1}, K)]
+                top = {"inv": ["y", "z"], "outv": ["o"], "a": list(rows), "g": [({"o": 1, "y": a_, "z": a_}, rng.randint(6, 12))]}
+                div = {"inv": ["y", "z"], "outv": ["m"], "a": list(rows), "g": [({"y": 1, "m": -1}, 0), ({"m": 1}, K)]}
+                cfgs = [([], False, [5]), ([], False, [5, 1, 2, 3, 4]), ([], True, [5, 2]), ([], True, [5, 1, 2, 3, 4])]
+                cases.append({"id": i + 1, "raw": {"kind": "random", "top": top, "div": div}, "cfgs": cfgs})
+                continue
             rows, px = gen.degenerate_rows(rng, ["y", "z"], None, with_point=True)
             top = {"inv": ["y", "z"], "outv": ["o"], "a": rows, "g": [(dict(a, o=rng.choice([1, 2])), rng.randint(2, 10))]}
             # the divisor's guarantees pass through the same point and mention a variable the quotient keeps
